@@ -44,10 +44,37 @@ def build_cases(ctx, alphabet, k_quick, k_thorough, n_random_quick, n_random_tho
     return cases, n_exh, K
 
 
+def listener_cases(ctx, alphabet, programs=None):
+    """control requests issued from listener notifications (i.e. during the transition that sends them), combined with
+    every placement of <= 1 ordinary request (2 in the thorough tier)"""
+    corpus = programs if programs is not None else pm.CORPUS
+    cases = []
+    K = 2 if ctx.thorough else 1
+    for name, prog in corpus.items():
+        npos = pm.n_positions(prog)
+        ops = pm.ops_for(prog, [a for a in alphabet if a in ('pause', 'play', 'kill', 'resume', 'complete')])
+        scheds = list(pm.schedules(npos, ops, K))
+        for notif in ('run', 'wai', 'pau', 'pla'):
+            for occ in (1, 2):
+                for op in ('kill', 'pause', 'play'):
+                    if notif == 'pau' and op == 'pause':
+                        continue
+                    for s in scheds:
+                        cases.append((name, prog, s, {(notif, occ): op}))
+    return cases
+
+
 def run_pm(ctx, alphabet, monitors, k_quick=3, k_thorough=4, n_random_quick=150, n_random_thorough=2000, programs=None,
-           clause_filter=None):
+           clause_filter=None, listeners=False):
     cases, n_exh, K = build_cases(ctx, alphabet, k_quick, k_thorough, n_random_quick, n_random_thorough, programs)
     out = pm.explore(ctx, cases, monitors)
+    if listeners:
+        lc = listener_cases(ctx, alphabet, programs)
+        lout = pm.explore_listeners(ctx, lc, monitors)
+        out['failures'].extend(lout['failures'])
+        out['evaluations'] += lout['evaluations']
+        out['histograms']['listener_stream'] = dict(cases=lout['evaluations'], requests_issued_from_listeners=lout['listener_requests_issued'],
+                                                    note='impl-only: the model has no listener oracle; decided by the monitors')
     if clause_filter is not None:
         out['failures'] = [f for f in out['failures'] if clause_filter(f)]
     out['rule'] = (f'every placement of <= {K} requests from {alphabet} between any two event-loop callbacks of each corpus program '
@@ -63,7 +90,8 @@ def run_pm(ctx, alphabet, monitors, k_quick=3, k_thorough=4, n_random_quick=150,
 def replay_pm(ctx, failure, monitors):
     import harness.pm_monitors  # noqa
     prog, sched = pm.fix_case(failure['case'])
-    r = pm.run_schedule(prog, sched, status0='s0')
+    plan = {(a, b): c for a, b, c in failure['case'].get('listener_plan', [])} or None
+    r = pm.run_schedule(prog, sched, status0='s0', plan=plan)
     fails = []
     for m in monitors:
         fails.extend(pm.MONITORS[m](r))
